@@ -7,6 +7,7 @@ import (
 	"strings"
 
 	"filippo.io/age"
+	"filippo.io/age/armor"
 	"verifharness/h"
 )
 
@@ -69,6 +70,58 @@ func runC13(cx *ctx) {
 						return fencwCase("dst-fault", rr2, []*party{p}, segs, true, plan, pt)
 					})
 				}
+			}
+		}
+	}
+	// destination faults under the armor writer (Encrypt → armor.NewWriter → faulty destination): oracle only
+	for _, n := range []int{0, 1, 100, 1000} {
+		n := n
+		rr := r.Fork()
+		p := mkParty(rr, rr.Intn(3))
+		pt := rr.Bytes(n)
+		probe, err, _ := realEncryptFile(rr.Bytes(200), []age.Recipient{p.rec}, [][]byte{pt}, true)
+		if err != nil {
+			panic(err)
+		}
+		for o := 0; o <= len(probe); o += cx.n(7, 1) {
+			for mode := 0; mode < 4; mode++ {
+				o, mode := o, mode
+				rr2 := rr.Fork()
+				cx.ru.Do(func() *h.Case {
+					fw := &h.FaultWriter{Off: o, Partial: mode&1 == 1, Once: mode>>1 == 1}
+					allOK := true
+					failed := false
+					oracle := ""
+					withTape(rr2.Bytes(200), func() {
+						aw := armor.NewWriter(fw)
+						w, err := age.Encrypt(aw, p.rec)
+						if err != nil {
+							allOK = false
+							return
+						}
+						for _, sgm := range segment(rr2, pt) {
+							if _, err := w.Write(sgm); err != nil {
+								allOK, failed = false, true
+							} else if failed {
+								oracle = "a Write succeeded after the stream had failed"
+							}
+						}
+						if err := w.Close(); err != nil {
+							allOK = false
+						}
+						if err := aw.Close(); err != nil {
+							allOK = false
+						}
+					})
+					if allOK && oracle == "" {
+						out, class, _ := realDecryptFile(fw.Acc, []age.Identity{p.id}, true)
+						if class != "ok eof" || !bytes.Equal(out, pt) {
+							oracle = fmt.Sprintf("Encrypt, every Write, Close and the armor Close succeeded but the destination does not hold a complete valid armored file (%s)", class)
+						}
+					}
+					return &h.Case{Kind: "dst-fault-armored", Impl: fmt.Sprintf("allok=%v acc=%d", allOK, len(fw.Acc)), Oracle: oracle, NonTrivial: true,
+						Note: fmt.Sprintf("%s pt=%d armored, destination fails at %d mode %d", p.label, n, o, mode)}
+				})
 			}
 		}
 	}
